@@ -443,6 +443,9 @@ def build_class(prog, rec, W, decorated=True):
                     finally:
                         W.tl.cur = None
             return {'user_key': 'user value'}
+        if mode == 'discards':
+            # the extractor (it runs after the operation has finished) gives up on the recording
+            W.recorder.discard_recording()
         if mode == 'junk_list':
             return [1, 2]
         if mode == 'junk_keys':         # a mapping, but not with string keys
